@@ -488,6 +488,15 @@ void FileManager::generateGenericProperty(const std::string& _entity_t, const st
 template<class MeshT>
 void FileManager::writeStream(std::ostream &_ostream, const MeshT &_mesh) const
 {
+    if(_mesh.needs_garbage_collection()) {
+        // Deleted entities are skipped by the iterators below while the counts are not:
+        // the result would not be a readable file.
+        if (verbosity_level_ >= 1) {
+            std::cerr << "Mesh has pending deletions, call collect_garbage() before writing!" << std::endl;
+        }
+        _ostream.setstate(std::ios::failbit);
+        return;
+    }
     _ostream.imbue(std::locale::classic());
     // Write header
     _ostream << "OVM ASCII" << std::endl;
